@@ -414,6 +414,17 @@ func (env *ExprEnv) callExpr(e *ast.CallExpr) Val {
 		m, k := arg(0), arg(1)
 		f := t.declareFun("$mapget0I", []string{"Int", "Int"}, "Int")
 		return Val{K: KRef, S: sApp(f, m.S, k.S)}
+	case "reentrant": // reentrant(f): the function value f may be called from several goroutines at once (see reentrantFact)
+		fv := arg(0)
+		if !t.useReentr {
+			t.useReentr = true
+			for _, n := range t.fnNames {
+				t.reentrantFact(n)
+			}
+		}
+		rf := t.declareFun("$reentrantfn", []string{"Int"}, "Bool")
+		code := "(ite (= " + sApp(t.fkind(), fv.S) + " 2) " + sApp(t.cloFn(), fv.S) + " " + fv.S + ")"
+		return boolVal(sApp(rf, code))
 	case "global": // global("name") / global("pkg/path.name"): a package-level variable of reference / interface / int kind
 		nm, _ := strconv.Unquote(exprString(e.Args[0]))
 		if !strings.Contains(nm, ".") {
